@@ -62,12 +62,13 @@ mcArgLits == %s
  TFIdx = %d
  TFLen = %d
  TFReadLen = %d
+ TFReadKeys = %d
  Emit = TRUE
 INIT Init
 NEXT Next
 INVARIANTS %s
 CHECK_DEADLOCK FALSE
-""" % (nk, c["maxrefs"], c.get("buildrefs") or c["maxrefs"], c["maxlen"], "TRUE" if c["argrefs"] else "FALSE", c["slack"], c["tfkeys"], c["tfidx"], c["tflen"], c["tfread"], " ".join(c["invariants"]))
+""" % (nk, c["maxrefs"], c.get("buildrefs") or c["maxrefs"], c["maxlen"], "TRUE" if c["argrefs"] else "FALSE", c["slack"], c["tfkeys"], c["tfidx"], c["tflen"], c["tfread"], c.get("tfreadkeys") or nk, " ".join(c["invariants"]))
     return mod, cfg
 
 
@@ -331,7 +332,7 @@ def configs_for(prop, tier):
         base = [
             dict(name="objs-r2-k2", maxrefs=2, nkeys=2, maxlen=2, scalars=[("int", 1), ("nil", 0)],
                  ops=["NewObject", "NewObject2", "Set2", "Unset2"] + OBJ_MUT + OBJ_DER + ["Dict", "MapIdO"],
-                 conc=["weird", "plain", "long"], depth=3, walks=6000, walklen=40),
+                 conc=["weird", "plain", "long", "bytes"], depth=3, walks=6000, walklen=40),
             dict(name="objs-r3-k1", maxrefs=3, nkeys=1, maxlen=1, scalars=[("str", 1)], lits=[("L", []), OBJLIT], arglits=[2],
                  ops=["NewObject", "NewList"] + OBJ_MUT + OBJ_DER, conc=["weird"], depth=3, walks=6000),
             dict(name="merge-r3-k2", maxrefs=3, nkeys=2, maxlen=2, scalars=[("int", 1), ("int", 2)], argrefs=False,
@@ -432,6 +433,10 @@ def configs_for(prop, tier):
                  conc=["tf", "long"], obs="tf,malform", depth=4, walks=6000, walklen=25),
             dict(name="tfread-r2-k2", maxrefs=2, nkeys=2, maxlen=2, scalars=[("int", 1), ("nil", 0)], ops=RO, tfread=2,
                  conc=["tf"], obs="tf,malform", depth=3, walks=6000, walklen=25),
+            # field names that spell whole paths (".a.b" must go a -> b even when a field "a.b" exists)
+            dict(name="tfread-shadow", maxrefs=2, nkeys=3, maxlen=1, scalars=[("int", 1), ("int", 2)], argrefs=True,
+                 ops=["NewObject", "NewList", "Set", "Add"], tfkeys=2, tfidx=1, tflen=2, tfread=2, tfreadkeys=2,
+                 conc=["tfdots"], obs="tf,malform", depth=4, walks=3000, walklen=15),
         ]
         if q:
             return base
